@@ -31,7 +31,9 @@ Str(s) == [k |-> "s", t |-> s]
 Int(s) == [k |-> "i", t |-> s]
 StrCells == {NullC} \cup {Str(s) : s \in {"", "NULL", "(empty)", "a", "b", "a|b", "q\"q", "U+00E9", " a", "it's"}}
 IntCells == {NullC} \cup {Int(s) : s \in {"0", "12", "-1"}}
-Cells(kind) == IF kind = "s" THEN StrCells ELSE IntCells
+Flt(s) == [k |-> "f", t |-> s]
+FltCells == {NullC} \cup {Flt(s) : s \in {"0.0", "12.0", "-1.5"}}        \* a DOUBLE column: 12.0 is shown as 12.0, not 12
+Cells(kind) == IF kind = "s" THEN StrCells ELSE IF kind = "i" THEN IntCells ELSE FltCells
 
 Render(c)   == IF c.k = "n" THEN "NULL" ELSE c.t          \* how a fresh result cell is shown
 Stored(c)   == IF c.k = "n" THEN "" ELSE c.t              \* the field written to the '|' file
@@ -55,7 +57,7 @@ SameShape(P, R) == Len(P) = Len(R) /\ \A i \in 1..Len(P) : Len(P[i]) = Len(R[i])
 VARIABLES kinds, P, R, mut
 vars == <<kinds, P, R, mut>>
 
-RowSet(ks) == {r \in [1..Len(ks) -> StrCells \cup IntCells] : \A j \in 1..Len(ks) : r[j] \in Cells(ks[j])}
+RowSet(ks) == {r \in [1..Len(ks) -> StrCells \cup IntCells \cup FltCells] : \A j \in 1..Len(ks) : r[j] \in Cells(ks[j])}
 Grids(ks, nr) == [1..nr -> RowSet(ks)]
 Pick(S) == IF Cardinality(S) <= SampleN THEN S ELSE RandomSubset(SampleN, S)
 
@@ -65,9 +67,14 @@ DropRow(G)  == {SubSeq(G, 1, i - 1) \o SubSeq(G, i + 1, Len(G)) : i \in 1..Len(G
 DupRow(G)   == IF G = <<>> THEN {} ELSE {Append(G, G[Len(G)])}
 SwapRows(G) == IF Len(G) = 2 /\ G[1] # G[2] THEN {<<G[2], G[1]>>} ELSE {}
 DropCol(G)  == IF G # <<>> /\ Len(G[1]) = 2 THEN {[i \in 1..Len(G) |-> <<G[i][1]>>]} ELSE {}
+\* the same numbers in a column of the other numeric type (1 vs 1.0): the comparison is textual, so it must be rejected
+Retype(c)   == IF c.k = "i" THEN Flt(c.t \o ".0") ELSE IF c.k = "f" /\ c.t \in {"0.0", "12.0"} THEN Int(IF c.t = "0.0" THEN "0" ELSE "12") ELSE c
+Whole(c)    == c.k = "n" \/ c.k = "i" \/ (c.k = "f" /\ c.t \in {"0.0", "12.0"})
+RetypeCol(G, ks) == IF G # <<>> /\ ks[1] \in {"i", "f"} /\ (\A i \in 1..Len(G) : Whole(G[i][1])) /\ (\E i \in 1..Len(G) : G[i][1].k # "n")
+                      THEN {[i \in 1..Len(G) |-> [G[i] EXCEPT ![1] = Retype(G[i][1])]]} ELSE {}
 AddCol(G)   == IF G # <<>> /\ Len(G[1]) = 1 THEN {[i \in 1..Len(G) |-> <<G[i][1], Str("a")>>]} ELSE {}
 
-Init == /\ kinds \in {<<"s">>, <<"i">>, <<"s", "s">>, <<"s", "i">>}
+Init == /\ kinds \in {<<"s">>, <<"i">>, <<"f">>, <<"s", "s">>, <<"s", "i">>, <<"f", "s">>}
         /\ \E nr \in 0..2 : P \in Pick(Grids(kinds, nr))
         /\ \/ (mut = "same" /\ R = P)
            \/ (mut = "cell" /\ R \in Pick(CellMut(P, kinds)))
@@ -76,6 +83,7 @@ Init == /\ kinds \in {<<"s">>, <<"i">>, <<"s", "s">>, <<"s", "i">>}
            \/ (mut = "swap" /\ R \in SwapRows(P))
            \/ (mut = "dropcol" /\ R \in DropCol(P))
            \/ (mut = "addcol" /\ R \in AddCol(P))
+           \/ (mut = "retype" /\ R \in RetypeCol(P, kinds))
 Next == UNCHANGED vars
 Spec == Init /\ [][Next]_vars
 
